@@ -478,6 +478,9 @@ class Executor:
         self.objtype = {}
         self.deadline = None
         self.mark = None
+        self.twin = False
+        self.nondet_n = 0
+        self.nondet_sites = []
         self.exit_allowed = False
         install_default_intrinsics(self)
 
@@ -528,6 +531,9 @@ class Executor:
     # ------------------------------------------------------------ symbols
     def fresh(self, name, kind, bits=None):
         if name in self.symbols:
+            c0, k0, b0 = self.symbols[name]
+            if self.twin and k0 == kind and b0 == bits:
+                return c0   # twin runs draw the same inputs under the same names
             raise Inconclusive('duplicate symbol ' + name)
         if kind == 'bool':
             c = z3.Bool(name)
@@ -2257,6 +2263,40 @@ def install_default_intrinsics(ex):
             ex.stats.setdefault('globals_possibly_written', []).extend(changed[:10])
         return r, st
     I['v:vGlobalsUnchanged'] = vglobalsunchanged
+
+    def vtwin(ex, st, args, pos):
+        ex.twin = True
+        return None, st
+    I['v:vTwinBegin'] = vtwin
+
+    # environment primitives whose result is not a function of the emulator state: each call yields a fresh,
+    # unconstrained value (C24: a twin run that reaches one may differ)
+    def nondet_int(what, bits=64):
+        def f(ex, st, args, pos):
+            ex.nondet_n += 1
+            ex.nondet_sites.append((what, pos))
+            return z3.BitVec('nondet!%s!%d' % (what, ex.nondet_n), bits), st
+        return f
+
+    def nondet_opaque(what):
+        def f(ex, st, args, pos):
+            ex.nondet_n += 1
+            ex.nondet_sites.append((what, pos))
+            return Opaque('nondet:' + what), st
+        return f
+    I['time.Now'] = nondet_opaque('time.Now')
+    for m in ('Unix', 'UnixNano', 'UnixMilli', 'UnixMicro', 'Nanosecond', 'Second', 'Minute', 'Hour', 'Day', 'YearDay'):
+        I['(time.Time).' + m] = nondet_int('time.Time.' + m)
+    I['time.Since'] = nondet_int('time.Since')
+    I['time.Until'] = nondet_int('time.Until')
+    for pkg in ('math/rand', 'math/rand/v2'):
+        for m, b in (('Int', 64), ('Intn', 64), ('IntN', 64), ('Int31', 32), ('Int31n', 32), ('Int32', 32), ('Int32N', 32), ('Int63', 64), ('Int63n', 64), ('Int64', 64),
+                     ('Int64N', 64), ('Uint32', 32), ('Uint64', 64), ('N', 64)):
+            I[pkg + '.' + m] = nondet_int(pkg + '.' + m, b)
+    for n in ('os.Getpid', 'os.Getppid', 'os.Getuid', 'runtime.NumGoroutine', 'runtime.NumCPU'):
+        I[n] = nondet_int(n)
+    I['os.Getenv'] = nondet_opaque('os.Getenv')
+    I['os.Hostname'] = nondet_opaque('os.Hostname')
 
     def vmark(ex, st, args, pos):
         ex.mark = const_name(args[0])
